@@ -542,8 +542,16 @@ def run_requests(reqs: list[dict[str, Any]], n_workers: int = 14) -> list[dict[s
                 w.send(reqs[i])
                 rep = w.recv()
                 if rep.get("error") == "worker died":
+                    # the interpreter exited without an answer (a crash below Python, or a per-process limit of a
+                    # library reached after many requests): ask once more in a fresh interpreter; a request that
+                    # kills a fresh interpreter too is reported as such
                     w.close()
                     w = Worker(seed)
+                    w.send(reqs[i])
+                    rep = w.recv()
+                    if rep.get("error") == "worker died":
+                        w.close()
+                        w = Worker(seed)
                 out[i] = rep
         finally:
             w.close()
